@@ -46,6 +46,15 @@ func (fc *FnCtx) call(in ssa.Instruction, cc *ssa.CallCommon, pos token.Pos) V {
 		for callee, cls := range fc.c.AtCall {
 			if callee == name || callee == shortName(name) {
 				env := fc.newEnv(fc.cur, fc.entry)
+				// ARG0, ARG1, ...: the actual arguments of this call (receiver first)
+				k := 0
+				if cc.IsInvoke() {
+					env.vars["ARG0"] = fc.val(cc.Value)
+					k = 1
+				}
+				for i, a := range cc.Args {
+					env.vars[fmt.Sprintf("ARG%d", i+k)] = fc.val(a)
+				}
 				site := fc.srcText(pos, isKind[*ast.CallExpr])
 				for _, cl := range cls {
 					fc.oblige("atcall", shortName(name)+"."+cl.Label+"{"+site+"}", env.evalBool(cl.E), pos, fc.clauseProps(cl), cl.Text)
@@ -80,7 +89,9 @@ func (fc *FnCtx) call(in ssa.Instruction, cc *ssa.CallCommon, pos token.Pos) V {
 		return fc.unknownCall(name, args, resTy, false)
 	case "funcvalue":
 		fv := fc.val(cc.Value)
-		fc.safe("nilcall", not(eq(fv.T[0], "0")), pos, isKind[*ast.CallExpr])
+		if !fc.unsafeVals[fv.T[0]] {
+			fc.safe("nilcall", not(eq(fv.T[0], "0")), pos, isKind[*ast.CallExpr])
+		}
 		if c, ok := fc.e.specs.Contracts["functype:"+name]; ok {
 			return fc.applyContract(c, name, append([]V{fv}, args...), cc.Signature(), resTy, pos)
 		}
